@@ -325,7 +325,10 @@ def build_cases(rng, tier):
             prog = {'csize': 256, 'caseins': False, 'scs': [], 'rules':
                     [{'head': ('str', list(w)), 'bol': False, 'scs': None, 'trail': None} for w in sorted(words)] +
                     [{'head': ('plus', ('cls', ('set', False, [('rg', 97, 122)]))), 'bol': False, 'scs': None, 'trail': None}]}
-            repr_ = list(r.pick([["-Cf"], ["-Cf"], ["-Cfe"], ["-Cfa"], ["-CF"], ["-CFe"], ["-Ce"], []]))
+            # (with -Ca the in-code tables are 32 bits wide while the file keeps the smallest width: negative 16-bit entries
+            # must be sign-extended by the loader)
+            repr_ = list([["-Cfa"], ["-CFa"], ["-Cfea"], ["-Cf"], ["-CF"], ["-CFe"], ["-Cae"], ["-Ce"], ["-CFea"], []][(i // 4) % 10])
+            r.pick([0])
         cases.append({'id': "t%d" % i, 'kind': 'rt', 'prog': prog, 'seed': r.s, 'flex_opts': repr_ + ["-8"], 'extra_options': extra,
                       'inputs': rulesets.gen_inputs(prog, r.fork("in"), count=2, maxlen=80),
                       # (-CF reads yy_transition past its end on some bytes, in-code and loaded alike: that is C13's finding, not a loader defect)
